@@ -36,6 +36,7 @@ TT_AUX = ("typetable", "storage_block_heap_tables", {})
 CONSTEXPR = ("constexpr", "constexpr_table", {})
 SIB = ("siblings", "instrumenter_siblings", {})
 REIMPL = ("siblings", "reindexable_impls", {})
+TAGU = ("siblings", "tag_utils_siblings", {})
 MODEF = ("modes", "mode_field", {})
 BLOCKT = ("special", "block_tables", {})
 CLEARS = ("special", "resolve_clears", {})
@@ -164,27 +165,27 @@ PROPS = {
              "R-MODE-FIELD, R-HAS-INSTR, R-EMIT-ORDER, R-SIBLING(instrumenter), R-INJECT-AT.",
              "textual equality on concrete programs (a consequence).",
              "path enumeration over structured HIR + sibling effect summaries"),
-    "C17": P([MODRESET, SIB, SECORD, EMITORD, ENCW, FINISH, MODEHELP, FLF, ("misc", "type_dedup", {}), LCG, WALK, SPFLAG, CLEARCOH, MODEF, BLOCKT, DETAILS, CLEARS, ("special", "entry_preserve", {})],
+    "C17": P([INJAT, MODRESET, SIB, SECORD, EMITORD, ENCW, FINISH, MODEHELP, FLF, ("misc", "type_dedup", {}), LCG, WALK, SPFLAG, CLEARCOH, MODEF, BLOCKT, DETAILS, CLEARS, ("special", "entry_preserve", {})],
              "necessary: exit probes cover every return/throw/trap operator, wrapper opened/closed once, entry at idx 0, entry body preserved",
              "R-BLOCK-TABLES(4), R-RESOLVER-DETAILS, R-RESOLVE-CLEARS, R-ENTRY-PRESERVE.",
              "firing counts at run time.",
              "ADT-driven table checks + path enumeration"),
-    "C18": P([EMITORD, ENCW, FINISH, SIB, MODEHELP, LCG, WALK, SPFLAG, CLEARCOH, MODEF, BLOCKT, DETAILS, CLEARS],
+    "C18": P([INJAT, EMITORD, ENCW, FINISH, SIB, MODEHELP, LCG, WALK, SPFLAG, CLEARCOH, MODEF, BLOCKT, DETAILS, CLEARS],
              "necessary: accepting predicate, resolver and driver agree on {Block,Loop,If,Else}; body placed After the opener; list cleared",
              "R-BLOCK-TABLES(2), R-RESOLVER-DETAILS, R-RESOLVE-CLEARS.",
              "firing semantics.",
              "table agreement"),
-    "C19": P([EMITORD, FINISH, SIB, MODEHELP, LCG, SAVESIB, WALK, SPFLAG, CLEARCOH, MODEF, BLOCKT, DETAILS, ("misc", "scoped_pending", {}), CLEARS],
+    "C19": P([INJAT, EMITORD, FINISH, SIB, MODEHELP, LCG, SAVESIB, WALK, SPFLAG, CLEARCOH, MODEF, BLOCKT, DETAILS, ("misc", "scoped_pending", {}), CLEARS],
              "necessary: every opener pushed, exit bodies scoped to their block and resolved Before the closing else/end",
              "R-BLOCK-TABLES(1,2), R-RESOLVER-DETAILS, R-SCOPED-PENDING, R-RESOLVE-CLEARS.",
              "firing semantics.",
              "table agreement + container scoping analysis"),
-    "C20": P([("mutators", "locals_owner", {}), EMITORD, FINISH, MODEHELP, ("misc", "if_chain", {}), LCG, SAVESIB, SCOPED, WALK, SPFLAG, CLEARCOH, MODEF, BLOCKT, DETAILS, ("misc", "flag_reset", {}), ("misc", "dead_after_sink", {}), CLEARS],
+    "C20": P([INJAT, ("mutators", "locals_owner", {}), EMITORD, FINISH, MODEHELP, ("misc", "if_chain", {}), LCG, SAVESIB, SCOPED, WALK, SPFLAG, CLEARCOH, MODEF, BLOCKT, DETAILS, ("misc", "flag_reset", {}), ("misc", "dead_after_sink", {}), CLEARS],
              "necessary: branch tables agree, target id arithmetic, flag protocol (set/reset), flag reset inside guard, no After code on the final end",
              "R-BLOCK-TABLES(1,3), R-RESOLVER-DETAILS, R-FLAG-RESET, R-DEAD-AFTER-SINK, R-RESOLVE-CLEARS.",
              "exactly-once at run time.",
              "table agreement + path enumeration"),
-    "C21": P([EMITORD, FLF, SCOPED, FINISH, MODESET, SIB, MODEHELP, LCG, WALK, SPFLAG, CLEARCOH, MODEF, BLOCKT, DETAILS, CLEARS, CLEARCOH],
+    "C21": P([INJAT, EMITORD, FLF, SCOPED, FINISH, MODESET, SIB, MODEHELP, LCG, WALK, SPFLAG, CLEARCOH, MODEF, BLOCKT, DETAILS, CLEARS, CLEARCOH],
              "necessary: opener stack, delete_block bookkeeping, retain_end, every visited instruction emptied while deleting",
              "R-BLOCK-TABLES(1,2), R-RESOLVER-DETAILS, R-RESOLVE-CLEARS, R-CLEAR-COHERENT.",
              "textual result.",
@@ -194,12 +195,12 @@ PROPS = {
              "R-SPECIAL-FLAG, R-RESOLVE-CLEARS, R-ENTRY-PRESERVE, R-MODE-FIELD, R-SIBLING(instrumenter), R-DEAD-AFTER-SINK, R-HAS-INSTR, R-CLEAR-COHERENT, R-INJECT-AT.",
              "that every accepted special injection appears in the bytes for every body.",
              "result-use analysis + guarded-write analysis"),
-    "C23": P([MODESET, TT_BOTH, ADDFLOW, SCRATCH, MAPUNC, FULLIT, ("emit", "tag_emit", {}), MODEF, ("misc", "type_dedup", {})],
+    "C23": P([TAGU, SIB, MODESET, TT_BOTH, ADDFLOW, SCRATCH, MAPUNC, FULLIT, ("emit", "tag_emit", {}), MODEF, ("misc", "type_dedup", {})],
              "necessary: InjectType↔Injection pairing, guards, parse-path tags are None, probe bodies collected after remapping",
              "R-TAG-EMIT (incl. R-PARSE-TAG-NONE), R-MODE-FIELD, R-TYPE-DEDUP (a parsed type is never overwritten by a tagged request for the same signature).",
              "record multiset over histories.",
              "pairing table + dominance by statement order"),
-    "C24": P([("opcode", "opcode_table", {}), TT_AUX, TT_BOTH],
+    "C24": P([("reindex", "refers_exh", {"kind": "memory"}), ("reindex", "refers_exh", {"kind": "func"}), ("reindex", "refers_exh", {"kind": "global"}), MAPARGS, ("opcode", "opcode_table", {}), TT_AUX, TT_BOTH],
              "finite obligations: 200 helpers × {one inject on self, variant = reviewed table, each immediate from one parameter through bit-preserving conversions}; the conversion tables the helpers rely on are decided by R-TYPE-TABLE",
              "R-OPCODE-TABLE for all helpers, R-TYPE-TABLE(aux) for BlockType/HeapType conversions, writer agreement for DataType.",
              "Inject::inject implementations (C15/C12) and dependency From impls (trusted).",
@@ -219,7 +220,7 @@ PROPS = {
              "R-VARIANT-METHOD (2 + 1 tables, 67 arms), R-SECTION-PAIRING (12 tags), R-LOOP-SCRATCH.",
              "equality of the decoded component for every input (R-NEST-TRACK decides the push/pop discipline of the nesting stack structurally: one level opened per nested-section payload on every path, one closed per End).",
              "variant→method correspondence + tag↔vector pairing"),
-    "C28": P([EMITALL, FULLIT, ("fields", "custom_sections", {})],
+    "C28": P([ENCW, EMITALL, FULLIT, ("fields", "custom_sections", {})],
              "necessary: one owner of the custom-section list, order-preserving API, name/data copied to name/data, forward emission",
              "R-CUSTOM-SECTIONS.",
              "byte equality of the emitted sections over edit sequences.",
@@ -229,7 +230,7 @@ PROPS = {
              "R-EMIT-MAPPED(names), R-NAME-DISPATCH, R-NAME-PAIRING, R-IMPORT-ORDINAL.",
              "name equality over histories.",
              "sink provenance"),
-    "C30": P([WCOPY, EMITALL, RECALC, EM(("memory",)), MAPARGS, ("fields", "struct_copy_pairing", {}), CONSTEXPR, TT_BOTH, ("misc", "additions", {}), ("mutators", "swap_flows", {}), ("mutators", "who_may_call", {}), FRESH],
+    "C30": P([("misc", "delete_pairing", {}), WCOPY, EMITALL, RECALC, EM(("memory",)), MAPARGS, ("fields", "struct_copy_pairing", {}), CONSTEXPR, TT_BOTH, ("misc", "additions", {}), ("mutators", "swap_flows", {}), ("mutators", "who_may_call", {}), FRESH],
              "bit-exact constant expressions, exact types, parameter→field flows of the module-level adders",
              "R-CONSTEXPR-TABLE, R-TYPE-TABLE incl. the wasmparser writer used by add_global, R-ADD-FLOW, R-SWAP, R-WHOMAYCALL, R-FRESH-ID.",
              "decoded equality of whole modules.",
